@@ -182,12 +182,16 @@ def main(argv):
                 print(f"  shard {i}: {r.get('wall_s', 0):.1f}s {json.dumps(specs[i])[:150]}")
         crashed = [r for r in results if "crashed" in r]
         crash_failures = []
+        flaky_crash = False
         for r in crashed:
             # deterministic? the same shard must crash again
             again = run_worker(pid, tier, r["spec"], workdir, 8000 + len(crash_failures))
             if "crashed" not in again:
+                # not deterministic (e.g. a wild read through a wrong offset that sometimes hits unmapped memory): the other
+                # shards are still judged; without a violation from them the run counts as broken
                 print(f"HARNESS-ERROR: a worker died with signal {r['crashed']} but the same shard completes on a second run")
-                return 2
+                flaky_crash = True
+                continue
             crash_failures.append({"sig": f"{pid}/crash:signal-{r['crashed']}", "what": f"the process running the code under test died with signal {r['crashed']} (reproduced on a second run of the same shard); stderr: {r['stderr'].strip()[-200:]}",
                                    "case": {"crashed_shard": r["spec"], "signal": r["crashed"]}})
         results = [r if "crashed" not in r else {"evaluations": 0, "nontrivial": 0, "failures": [], "samples": [], "stats": {}, "sets": {}} for r in results]
@@ -312,7 +316,7 @@ def main(argv):
                 print(f"  {k}={extra[k]}")
         if nviol:
             return 1
-        return 2 if (not_reproduced or herr) else 0
+        return 2 if (not_reproduced or herr or flaky_crash) else 0
     finally:
         shutil.rmtree(workdir, ignore_errors=True)
 
